@@ -73,39 +73,33 @@ example : ∀ f ∈ [(([97, 32, 233] : Str), ([0, 255, 38, 61] : Bytes)), ([97, 
    start with a double quote and whose delimiter `--boundary` occurs nowhere in the encoded content of a part,
    names / filenames / content types that can be sent in a quoted-string header. -/
 
-/-- the full lossless statement for the quoted-string form (false: see `multipart_trailing_backslash_refuted`) -/
-def multipart_roundtrip_full : Prop :=
-  ∀ (cfg : Config) (b : Bytes) (parts : List Spec.Part), WellFormed cfg b parts →
-    parseMultipart cfg b (Spec.encodeMultipart b parts) {} = .ok (Spec.expected parts)
-
-/-- the statement with the known finding excluded: additionally no upload's field *name* ends in a backslash.
-    Still false as written (`multipart_roundtrip_refuted`): "the delimiter does not occur in the content" does not
+/-- the lossless statement for the quoted-string form **as the clause words it** ("a boundary occurring nowhere in the
+    content").  False as written (`multipart_roundtrip_refuted`): "the delimiter does not occur in the content" does not
     exclude a boundary containing CR LF whose delimiter straddles the end of a part's content and the next delimiter. -/
 def multipart_roundtrip_goal : Prop :=
   ∀ (cfg : Config) (b : Bytes) (parts : List Spec.Part), WellFormed cfg b parts →
-    (∀ p ∈ parts, p.filename.isSome → p.name.getLast? ≠ some 92) →
     parseMultipart cfg b (Spec.encodeMultipart b parts) {} = .ok (Spec.expected parts)
 
 /-- `multipart_roundtrip`: every list of fields and files (arbitrary byte contents, repeated names, names with quotes,
-    backslashes, semicolons, non-ASCII) encoded as multipart/form-data with quoted-string parameters, under a boundary
-    whose delimiter occurs nowhere in the content, is parsed back to exactly those fields and files — provided no upload's
-    field name ends in a backslash (known finding) and the boundary contains no LF (every boundary that can be sent in a
-    Content-Type header; without it the statement is false, `multipart_roundtrip_refuted`). -/
-theorem multipart_roundtrip_partial (cfg : Config) (b : Bytes) (parts : List Spec.Part) (hwf : WellFormed cfg b parts)
-    (hbs : ∀ p ∈ parts, p.filename.isSome → p.name.getLast? ≠ some 92) (hlf : 10 ∉ b) :
+    backslashes — trailing ones included —, semicolons, non-ASCII) encoded as multipart/form-data with quoted-string
+    parameters, under a boundary whose delimiter occurs nowhere in the content, is parsed back to exactly those fields and
+    files — provided the boundary contains no LF (every boundary that can be sent in a Content-Type header; without it the
+    statement is false, `multipart_roundtrip_refuted`).  Until the `fix:` commit d01e7a8 this needed the side condition
+    "no upload's field name ends in a backslash" (finding `multipart/lossy/name-trailing-backslash`). -/
+theorem multipart_roundtrip (cfg : Config) (b : Bytes) (parts : List Spec.Part) (hwf : WellFormed cfg b parts)
+    (hlf : 10 ∉ b) :
     parseMultipart cfg b (Spec.encodeMultipart b parts) {} = .ok (Spec.expected parts) :=
-  parseMultipart_sendable_accept cfg b parts hwf.enabled (hwf.sendable hbs hlf) hwf.count
+  parseMultipart_sendable_accept cfg b parts hwf.enabled (hwf.sendable hlf) hwf.count
     (fun p hp => hwf.header_size p hp)
 
-/-- non-vacuity: a field whose name contains a quote, a backslash and a semicolon, and an upload with a content type and
-    binary content containing `--` and CR LF CR LF, under the boundary `zZ9` -/
+/-- non-vacuity: a field whose name contains a quote, a backslash and a semicolon, and an upload whose field name *and*
+    filename end in a backslash, with a content type and binary content containing `--` and CR LF CR LF, under the
+    boundary `zZ9` -/
 example : WellFormed {} [122, 90, 57]
       [{ name := [97, 34, 92, 59, 233], value := [0, 255, 45, 45] },
-       { name := [102], filename := some [120, 92], ctype := some [116, 47, 112], value := [13, 10, 13, 10, 45, 45, 122] }] ∧
-    (∀ p ∈ ([{ name := [97, 34, 92, 59, 233], value := [0, 255, 45, 45] },
-       { name := [102], filename := some [120, 92], ctype := some [116, 47, 112], value := [13, 10, 13, 10, 45, 45, 122] }] :
-         List Spec.Part), p.filename.isSome → p.name.getLast? ≠ some 92) ∧ 10 ∉ ([122, 90, 57] : Bytes) := by
-  refine ⟨?_, by decide, by decide⟩
+       { name := [102, 92], filename := some [120, 92], ctype := some [116, 47, 112], value := [13, 10, 13, 10, 45, 45, 122] }] ∧
+    10 ∉ ([122, 90, 57] : Bytes) := by
+  refine ⟨?_, by decide⟩
   constructor <;> decide
 
 /-- the boundary `CR LF CR LF CR LF - -` and a first part with content type `--` and an empty value: the delimiter
@@ -119,7 +113,7 @@ theorem multipart_roundtrip_refuted : ¬ multipart_roundtrip_goal := by
       [{ name := [97], ctype := some [45, 45], value := [] }, { name := [97], value := [] }] := by
     constructor <;> decide
   have h1 := h {} [13, 10, 13, 10, 13, 10, 45, 45]
-    [{ name := [97], ctype := some [45, 45], value := [] }, { name := [97], value := [] }] hwf (by decide)
+    [{ name := [97], ctype := some [45, 45], value := [] }, { name := [97], value := [] }] hwf
   have h2 : (parseMultipart {} [13, 10, 13, 10, 13, 10, 45, 45]
       (Spec.encodeMultipart [13, 10, 13, 10, 13, 10, 45, 45]
         [{ name := [97], ctype := some [45, 45], value := [] }, { name := [97], value := [] }]) {}).toOption = none := by
@@ -127,29 +121,34 @@ theorem multipart_roundtrip_refuted : ¬ multipart_roundtrip_goal := by
   rw [h1] at h2
   cases h2
 
-/-- known finding `multipart/lossy/name-trailing-backslash`, at the `_parse_header` level: the Content-Disposition the
-    encoder writes for the upload `name = \`, `filename = f` is parsed into a single parameter
-    `name = \"; filename="f` — the escaped backslash makes `_parseparam` count the closing quote as escaped. -/
-theorem multipart_trailing_backslash_refuted :
-    (C43.parseHeader (C43.ofAscii "form-data; name=\"\\\\\"; filename=\"f\"")).toOption =
-      some (C43.ofAscii "form-data", [(C43.ofAscii "name", C43.ofAscii "\"; filename=\"f")]) := by
+/-- the witness of the former finding `multipart/lossy/name-trailing-backslash`, at the `_parse_header` level: the
+    Content-Disposition the encoder writes for the upload `name = \`, `filename = f` yields both parameters.  (Before the
+    `fix:` commit d01e7a8 it was parsed into the single parameter `name = \"; filename="f`: the closing quote after the
+    escaped backslash was counted as escaped.) -/
+theorem multipart_trailing_backslash_fixed :
+    (parseHeader (C43.ofAscii "form-data; name=\"\\\\\"; filename=\"f\"")).toOption =
+      some (C43.ofAscii "form-data", [(C43.ofAscii "name", [92]), (C43.ofAscii "filename", [102])]) := by
   decide
 
-/-- the known finding at the `parse_multipart_form_data` level: with every other hypothesis in place (boundary `b`),
-    the upload `name = \`, `filename = f` is not recovered — it comes back as an ordinary argument named `"; filename="f`.
-    Hence the side condition of `multipart_roundtrip_partial` on trailing backslashes cannot be dropped. -/
-theorem multipart_roundtrip_full_refuted : ¬ multipart_roundtrip_full := by
-  intro h
+/-- `_parseparam` in general: a quoted-string parameter is never split and never swallows the next parameter, whatever
+    its text ends in — the Content-Disposition written for any name and filename yields exactly these two parameters -/
+theorem multipart_disposition_recovered (name : Str) (filename : Option Str) :
+    parseHeader (dispValue name filename) =
+      .ok (C43.ofAscii "form-data", (C43.ofAscii "name", name) :: fnParams filename) :=
+  parseHeader_dispValue name filename
+
+/-- the same witness at the `parse_multipart_form_data` level (boundary `b`): the upload `name = \`, `filename = f` is
+    recovered as a file (it used to come back as an ordinary argument named `"; filename="f`) -/
+theorem multipart_trailing_backslash_recovered :
+    parseMultipart {} [98] (Spec.encodeMultipart [98] [{ name := [92], filename := some [102], value := [118] }]) {} =
+      .ok { files := [([92], [{ filename := [102], body := [118], contentType := C43.ofAscii "application/unknown" }])] } := by
   have hwf : WellFormed {} [98] [{ name := [92], filename := some [102], value := [118] }] := by
     constructor <;> decide
-  have h1 := h {} [98] [{ name := [92], filename := some [102], value := [118] }] hwf
-  rw [parseMultipart_single {} [98] _ hwf (by decide)] at h1
-  have h2 : (finishPart {} { name := [92], filename := some [102], value := [118] }
-      (C43.parseHeader (dispValue [92] (some [102])))).toOption =
-      some { arguments := [(C43.ofAscii "\"; filename=\"f", [[118]])] } := by decide
-  rw [h1] at h2
-  revert h2
-  decide
+  rw [multipart_roundtrip {} [98] _ hwf (by decide)]
+  have : Spec.expected [{ name := [92], filename := some [102], value := [118] }] =
+      { files := [([92], [{ filename := [102], body := [118], contentType := C43.ofAscii "application/unknown" }])] } := by
+    decide
+  rw [this]
 
 /-! ### limits -/
 
